@@ -273,6 +273,7 @@ typedef enum
   ORC_X86_test_imm,
   ORC_X86_leal,
   ORC_X86_leaq,
+  ORC_X86_movslq_rm_r,
   ORC_X86_imul_rm_r,
   ORC_X86_imul_rm,
   ORC_X86_inc,
